@@ -24,7 +24,7 @@ EXTENDS Scope, Json, SequencesExt
 
 CONSTANTS MaxLen,      \* items after which the program only winds down
           Deep,        \* TRUE: descend to MaxDepth before any scope is closed (deep-nesting programs)
-          Feat         \* set of enabled features: "macro","label","proto","for","fwd","func"
+          Feat         \* set of enabled features: "macro","label","proto","for","fwd","func","funcx"
 
 VARIABLES stack,       \* scope ids, innermost last
           kinds,       \* parallel to stack: "file" "func" "block" "for" "forbody" "proto"
@@ -195,6 +195,42 @@ OpenFunc(P) ==              \* function definition: parameters P and the body fo
   /\ Same(<<nid, macros, incomplete, done>>)
   /\ since' = 0
 
+\* Function definition whose declarator holds several function declarators (6.7.6.3, 6.2.1p4); with PTR = "( *":
+\*   "ret"    char PTR fn(P))(Q) {             function returning pointer to function
+\*   "retret" char PTR PTR fn(P))(Q))(R) {     ... returning pointer to function returning pointer to function
+\*   "cb"     void fn(P, void PTR cb)(Q)) {    a parameter that is itself a function pointer with named parameters
+\*   "cbret"  char PTR fn(P, void PTR cb)(Q)))(R) {
+\* Only the parameter list P of the function being DEFINED is re-opened as the scope of the body; every
+\* other parameter list is a function prototype scope that ends at its closing parenthesis.  Q is arbitrary,
+\* R is the complement of P, so names collide and do not collide with P and with file-scope identifiers.
+\* No use is generated inside Q or R (whether P's names are visible there is not something to rely on).
+ParamItems(ps, id0) == [i \in 1..Len(ps) |-> [op |-> "decl", ns |-> "decl", kind |-> "param", name |-> ps[i], id |-> id0 + i]]
+PGroup(role, ps, id0) == <<[op |-> "open", how |-> "pscope", role |-> role]>> \o ParamItems(ps, id0) \o <<[op |-> "close", how |-> "pscope"]>>
+NFuncX == Cardinality({i \in 1..Len(prog) : prog[i].op = "open" /\ prog[i].how = "funcx"})
+
+OpenFuncX(P, Q, shape) ==
+  /\ ~done /\ RoomOpen /\ F("funcx") /\ kind = "file" /\ CanOpen /\ nsc + 3 <= MaxScopes /\ NFuncX < 3
+  /\ \A n \in Names : ~ObjMacroOn(n)
+  /\ LET pP  == SortedNames(P)
+         pQ  == SortedNames(Q)
+         pR  == SortedNames(Names \ P)
+         id0 == Len(ent)
+         s   == nsc + 1
+         g1  == IF shape \in {"ret", "retret"} THEN PGroup("ret", pQ, id0 + Len(pP)) ELSE PGroup("cb", pQ, id0 + Len(pP))
+         g2  == IF shape \in {"retret", "cbret"} THEN PGroup("ret", pR, id0 + Len(pP) + Len(pQ)) ELSE <<>>
+         n2  == IF g2 = <<>> THEN 0 ELSE Len(pR)
+     IN /\ sc' = sc @@ (s :> [parent |-> top,
+                              decl |-> [n \in P |-> id0 + (CHOOSE i \in 1..Len(pP) : pP[i] = n)],
+                              tag |-> EmptyDict])
+        /\ ent' = ent \o [i \in 1..(Len(pP) + Len(pQ) + n2) |-> "param"]
+        /\ prog' = prog \o <<[op |-> "open", how |-> "funcx", shape |-> shape]>> \o ParamItems(pP, id0) \o g1 \o g2 \o <<[op |-> "body"]>>
+        /\ nsc' = nsc + (IF g2 = <<>> THEN 2 ELSE 3)
+        /\ stack' = Append(stack, s) /\ kinds' = Append(kinds, "func")
+  /\ down' = (down /\ Len(stack) + 1 < MaxDepth + 1)
+  /\ labels' = EmptyDict /\ gotos' = {}
+  /\ Same(<<nid, macros, incomplete, done>>)
+  /\ since' = 0
+
 OpenFor(n) ==               \* for (char n[..]; ..) { : the declaration lives in the for scope, the body is a block of its own
   /\ ~done /\ RoomOpen /\ F("for") /\ kind \in {"func", "block", "forbody"}
   /\ Len(stack) + 1 < MaxDepth + 1 /\ nsc + 1 < MaxScopes /\ (Deep => down)
@@ -257,6 +293,7 @@ CNext ==
   \/ \E n \in Names : CompleteTag(n) \/ UseOrd(n) \/ UseCall(n) \/ UseTag(n) \/ Undef(n) \/ Label(n) \/ Goto(n) \/ OpenFor(n)
   \/ \E n \in Names, fl \in BOOLEAN : Define(n, fl)
   \/ \E P \in SUBSET Names : OpenFunc(P)
+  \/ \E P \in SUBSET Names, Q \in SUBSET Names, sh \in {"ret", "retret", "cb", "cbret"} : OpenFuncX(P, Q, sh)
   \/ OpenBlock \/ OpenProto \/ CloseScope \/ CloseFunc \/ Finish \/ Turn
 
 CSpec == CInit /\ [][CNext]_cvars
